@@ -1,6 +1,6 @@
 """C15 — wait_until_idle is sound and live."""
 from .. import scenlib as S
-from ._common import flat, mk, t_tree
+from ._common import flat, matrix_jobs, mk, t_tree
 
 META = dict(
     explanation='wait_until_idle() is called by main while external dispatches (symbolic instants), nested dispatches and the run '
@@ -53,4 +53,6 @@ def jobs(tier):
             mk('C15', 'fw/chain3', S.forward_chain(3, topo='chain', second_event=True), witnesses=W, max_paths=6000),
             mk('C15', 'x2/other_running', S.two_bus_await('other_running', ('A', 'B')), witnesses=W, max_paths=6000),
         ]
+    out += matrix_jobs('C15', 'm1', tier)
+    out += matrix_jobs('C15', 'm2', tier)
     return flat(out)
